@@ -4,19 +4,20 @@ import StorageModel.Generated.UnescapeTable
 namespace StorageModel.Driver.C11
 open StorageModel StorageModel.Zql StorageModel.Driver
 
-def isInfix (needle hay : Bytes) : Bool :=
-  (List.range (hay.length + 1)).any fun i => needle.isPrefixOf (hay.drop i)
+def parseOp : String → Option LitOp
+  | "eq" => some .eq
+  | "ne" => some .ne
+  | "in" => some .inArr
+  | "nin" => some .notInArr
+  | "contains" => some .contains
+  | "ncontains" => some .notContains
+  | _ => none
 
 /-- what the documented semantics give for `f <op> literal` when the literal denotes `d` -/
 def evalOp (op : String) (d field : Bytes) : Bool :=
-  match op with
-  | "eq" => field == d
-  | "ne" => field != d
-  | "in" => field == d
-  | "nin" => field != d
-  | "contains" => isInfix d field
-  | "ncontains" => !isInfix d field
-  | _ => false
+  match parseOp op with
+  | some o => evalLitOp o d field
+  | none => false
 
 def step (line : String) : String :=
   match splitSp line with
